@@ -373,7 +373,8 @@ def gen_records(tape, fmt, max_records, noncanon=True, min_records=1, style=None
     ctx["float_dotless"] = bool(style.get("float_dotless"))
     if any(k == "vcfgt" for _, k in fmt.fields):
         ctx["n_samples"] = 1 + tape.draw(3, "n_samples")
-        ctx["gt_extra"] = tape.boolean("gt_extra", 1, 2)
+        # canonical files (what the eager writer would emit) carry the genotype alone: FORMAT is GT
+        ctx["gt_extra"] = tape.boolean("gt_extra", 1, 2) and not style.get("no_extra")
     while len(recs) < max_records and (len(recs) < min_records or tape.more("rec.more")):
         i = len(recs)
         texts = {}
